@@ -24,7 +24,8 @@ RULE = (
     "case = (namespace path under the root, short name, version, port-ID, designation, cwd): namespace paths of depth 0..2 incl. a "
     "sub-namespace named like the root; short names {T, Type_1}; versions {0.1, 1.0, 255.255}; port-ID absent / present; 17 ways of "
     "designating target and roots for read_files (absolute / relative / bare name / no root / symlink / '..' / two roots in both "
-    "orders / several bare names incl. the name of an inner directory in both orders / str vs Path) and 5 for read_namespace; cwd in {parent of the root, an unrelated directory}; plus 70 well- and "
+    "orders / several bare names incl. the name of an inner directory in both orders / str vs Path) and 5 for read_namespace; cwd in {parent of the root, an unrelated directory, "
+    "the directory above the parent of the root (relative targets with a multi-component prefix, the shape of the docstring's first example)}; plus 70 well- and "
     "ill-formed file names. Non-trivial iff the namespace depth is >= 1 or the designation is not the absolute path; distinct by "
     "canonical hash of the tuple"
 )
@@ -42,8 +43,11 @@ PORTS = [None, 6200]
 RF_DESIGNATIONS = ["abs-abs", "rel-rel", "rel-name", "rel-none", "symlink", "dotdot", "two-roots", "two-roots-reversed", "abs-name", "abs-rel", "rel-abs", "str-args",
                    "abs-names-inner-first", "abs-names-outer-first", "rel-names-inner-first", "rel-names-outer-first", "abs-names-other-first"]
 RN_DESIGNATIONS = ["abs", "rel", "symlink", "dotdot", "str"]
-CWDS = ["parent", "elsewhere"]
-MUST_SUCCEED = {("abs-abs", "parent"), ("rel-rel", "parent"), ("rel-name", "parent"), ("rel-none", "parent"), ("abs-abs", "elsewhere"), ("str-args", "parent")}
+CWDS = ["parent", "elsewhere", "grandparent"]
+MUST_SUCCEED = {("abs-abs", "parent"), ("rel-rel", "parent"), ("rel-name", "parent"), ("rel-none", "parent"), ("abs-abs", "elsewhere"), ("str-args", "parent"),
+                # the first example of the read_files docstring: targets given relative to a working directory ABOVE the parent of
+                # the root ("workspace/project/types/animals/felines/Tabby.1.0.dsdl") with the roots as bare names or as relative paths
+                ("abs-abs", "grandparent"), ("rel-rel", "grandparent"), ("rel-name", "grandparent")}
 
 
 def plan(tier):
@@ -139,7 +143,7 @@ def check_layout(case, R: engine.Acc):
         (base / "elsewhere").mkdir()
         (base / "links").mkdir()
         os.symlink(root, base / "links" / ROOT)
-        cwd = wsd if case["cwd"] == "parent" else base / "elsewhere"
+        cwd = {"parent": wsd, "elsewhere": base / "elsewhere", "grandparent": base}[case["cwd"]]
         os.chdir(cwd)
         relp = lambda p: Path(os.path.relpath(p, cwd))  # noqa: E731
         d = case["designation"]
